@@ -55,14 +55,17 @@ Section Frag.
   Definition grow_act_opb (w : world) (o : op) : bool :=
     match o with
     | PNew _ _ => true
-    | PBind p _ MImmediate => lookup_none (w_props w) p
+    | PBind p _ MImmediate => lookup_none (w_props w) p || (PropGrowAct2.unbound_b w p && PropGrowAct2.nab_b w p) || PropGrowAct2.bound_b w p
     | PReset _ => true
     | _ => act2_opb w o
     end.
   Lemma grow_act_opb_sound w o : grow_act_opb w o = true -> PropGrowAct2.grow_act2_op w o.
   Proof.
     destruct o; cbn [grow_act_opb PropGrowAct2.grow_act2_op]; try (apply act2_opb_sound); try (intros; exact I).
-    destruct m; [|apply act2_opb_sound]. unfold lookup_none. destruct (lookup (w_props w) p); [discriminate|reflexivity].
+    destruct m; [|apply act2_opb_sound]. intros H. apply orb_true_iff in H. destruct H as [H|H]; [apply orb_true_iff in H; destruct H as [H|H]|].
+    - left. unfold lookup_none in H. destruct (lookup (w_props w) p); [discriminate|reflexivity].
+    - right. left. apply andb_true_iff in H. exact H.
+    - right. right. exact H.
   Qed.
 
   Section Runs.
